@@ -2,12 +2,15 @@ module github.com/hashicorp/go-slug/verifharness
 
 go 1.20
 
-require github.com/hashicorp/go-slug v0.0.0
+require (
+	github.com/apparentlymart/go-versions v1.0.1
+	github.com/hashicorp/go-slug v0.0.0
+	github.com/hashicorp/terraform-registry-address v0.2.0
+)
 
 require (
-	github.com/apparentlymart/go-versions v1.0.1 // indirect
-	github.com/hashicorp/terraform-registry-address v0.2.0 // indirect
 	github.com/hashicorp/terraform-svchost v0.0.1 // indirect
+	golang.org/x/mod v0.10.0 // indirect
 	golang.org/x/net v0.17.0 // indirect
 	golang.org/x/text v0.13.0 // indirect
 )
